@@ -35,7 +35,7 @@ import signal
 from fractions import Fraction
 from typing import Any
 
-from harness import c15_hist, common
+from harness import c15_close, c15_hist, common
 from harness.common import Run, clist, cq
 
 AREA = "steady"
@@ -213,6 +213,136 @@ def _templates_ok(templates: dict) -> bool:
     return True
 
 
+_HANDLE_TREE = (
+    "self, result: Result[TimeCourse], *, skipfirst: bool\n"
+    "match result.value:\n"
+    "    case TimeCourse(time=time, values=results):\n"
+    "        if self._time_shift is not None:\n"
+    "            time += self._time_shift\n"
+    "        results_df = pd.DataFrame(data=results, index=time, columns=COLUMNS)\n"
+    "        if self.variables is None:\n"
+    "            self.variables = [results_df]\n"
+    "        elif skipfirst:\n"
+    "            self.variables.append(results_df.iloc[1:, :])\n"
+    "        else:\n"
+    "            self.variables.append(results_df)\n"
+    "        if self.simulation_parameters is None:\n"
+    "            self.simulation_parameters = []\n"
+    "        self.simulation_parameters.append(self.model.get_parameter_values())\n"
+    "    case _ as e:\n"
+    "        self._errors.append(e)"
+)
+# the shape of seeded change C15-7: no skipfirst flag, only rows strictly later than the last stored time are kept
+_HANDLE_LATER = (
+    "self, result: Result[TimeCourse]\n"
+    "match result.value:\n"
+    "    case TimeCourse(time=time, values=results):\n"
+    "        if self._time_shift is not None:\n"
+    "            time += self._time_shift\n"
+    "        results_df = pd.DataFrame(data=results, index=time, columns=COLUMNS)\n"
+    "        if self.variables is None:\n"
+    "            self.variables = [results_df]\n"
+    "        else:\n"
+    "            t_prev = self.variables[-1].index[-1]\n"
+    "            results_df = results_df.loc[results_df.index > t_prev]\n"
+    "            if results_df.empty:\n"
+    "                return\n"
+    "            self.variables.append(results_df)\n"
+    "        if self.simulation_parameters is None:\n"
+    "            self.simulation_parameters = []\n"
+    "        self.simulation_parameters.append(self.model.get_parameter_values())\n"
+    "    case _ as e:\n"
+    "        self._errors.append(e)"
+)
+_LABELS = {"self.model.get_variable_names()": "LabModelNames", "list(self.y0)": "LabY0Keys", "list(self.y0.keys())": "LabY0Keys"}
+_CLEAR = ("self\nself.variables = None\nself.dependent = None\nself.simulation_parameters = None\nself._time_shift = None\n"
+          "self._errors = []\nself._initialise_integrator()")
+_PLUMBING_STATE = ("self.variables", "self._errors", "self.simulation_parameters", "self._time_shift")
+
+
+def _writes(fn: ast.AST, prefixes: tuple[str, ...]) -> list[str]:
+    """assignments to / mutating calls on attributes starting with one of `prefixes`, as text"""
+    out = []
+    for n in ast.walk(fn):
+        if isinstance(n, (ast.Assign, ast.AugAssign, ast.AnnAssign)):
+            for t in (n.targets if isinstance(n, ast.Assign) else [n.target]):
+                if ast.unparse(t).startswith(prefixes):
+                    out.append(ast.unparse(n))
+        if isinstance(n, ast.Call) and isinstance(n.func, ast.Attribute) and ast.unparse(n.func.value).startswith(prefixes):
+            out.append(ast.unparse(n))
+    return out
+
+
+def extract_hist_facts() -> dict[str, Any]:
+    """facts of the extended history model (coq/steady/SteadyHist2.v), fail-closed"""
+    facts: dict[str, Any] = {"handle": "HkUnknown", "label": "LabUnknown", "ops_ok": False}
+    try:
+        tree = ast.parse((common.REPO / "src/mxlpy/simulator.py").read_text())
+    except (OSError, SyntaxError):
+        return facts
+    fn = _find(tree, "Simulator", "_handle_simulation_results")
+    if fn is not None:
+        frames = [n for n in ast.walk(fn) if isinstance(n, ast.Call) and ast.unparse(n.func) == "pd.DataFrame"]
+        if len(frames) == 1:
+            cols = [k for k in frames[0].keywords if k.arg == "columns"]
+            if len(cols) == 1:
+                facts["label"] = _LABELS.get(ast.unparse(cols[0].value), "LabUnknown")
+                cols[0].value = ast.Name(id="COLUMNS", ctx=ast.Load())
+                text = _src(fn)
+                callers = {}
+                for name in ("simulate", "simulate_time_course", "simulate_to_steady_state"):
+                    f = _find(tree, "Simulator", name)
+                    calls = [] if f is None else [n for n in ast.walk(f) if isinstance(n, ast.Call)
+                                                  and ast.unparse(n.func) == "self._handle_simulation_results"]
+                    callers[name] = calls
+                if text == _HANDLE_TREE:
+                    others = {k: v for k, v in _SIM_TEMPLATES.items() if k[2] != "_handle_simulation_results"}
+                    if _templates_ok(others) and _sim_methods_ok():
+                        facts["handle"] = "HkSkipfirst"
+                elif text == _HANDLE_LATER:
+                    if all(len(c) == 1 and len(c[0].args) == 1 and not c[0].keywords for c in callers.values()):
+                        facts["handle"] = "HkLaterOnly"
+    ok = True
+    init = _find(tree, "Simulator", "__init__")
+    ii = _find(tree, "Simulator", "_initialise_integrator")
+    uv = _find(tree, "Simulator", "update_variables")
+    if init is None or ii is None or uv is None:
+        return facts
+    init_src = [ast.unparse(s) for s in _body(init)]
+    for want in ("self.y0 = model.get_initial_conditions() if y0 is None else y0", "self._time_shift = None",
+                 "self.variables = None", "self.simulation_parameters = None", "self._errors = []"):
+        ok = ok and init_src.count(want) == 1
+    ok = ok and bool(init_src) and init_src[-1] == "self._initialise_integrator()"
+    ii_src = [ast.unparse(s) for s in _body(ii)]
+    ok = ok and len(ii_src) >= 2 and ii_src[-2] == "y0 = self.y0" and ii_src[-1] == (
+        "self.integrator = self._integrator_type(rhs, tuple((y0[k] for k in self.model.get_variable_names())), jac_fn)")
+    ok = ok and not _writes(ii, (*_PLUMBING_STATE, "self.y0"))
+    ok = ok and _src(_find(tree, "Simulator", "clear_results")) == _CLEAR
+    for name, sig in (("update_parameter", "parameter, value"), ("update_parameters", "parameters"),
+                      ("scale_parameter", "parameter, factor"), ("scale_parameters", "parameters")):
+        f = _find(tree, "Simulator", name)
+        ok = ok and f is not None and [ast.unparse(s) for s in _body(f)] == [f"self.model.{name}({sig})", "return self"]
+    f = _find(tree, "Simulator", "update_variable")
+    ok = ok and f is not None and [ast.unparse(s) for s in _body(f)] == ["return self.update_variables({variable: value})"]
+    # update_variables: early branch without stored results (no time shift), otherwise _time_shift = time of the last
+    # stored row; nothing else of the plumbing state is written (what happens to y0 is the integrator's business)
+    ub = _body(uv)
+    ok = ok and len(ub) >= 4 and ast.unparse(ub[0]) == "sim_variables = self.variables" and ast.unparse(ub[-1]) == "return self"
+    if ok:
+        early = ub[1]
+        ok = (isinstance(early, ast.If) and ast.unparse(early.test) == "sim_variables is None" and not early.orelse
+              and ast.unparse(early.body[-1]) == "return self" and not _writes(early, _PLUMBING_STATE)
+              and any(ast.unparse(s) == "self._initialise_integrator()" for s in early.body))
+        rest_writes = _writes(uv, _PLUMBING_STATE)
+        tl = [ast.unparse(n) for n in ast.walk(uv) if isinstance(n, ast.Assign) and ast.unparse(n.targets[0]) == "t_last"]
+        ok = ok and rest_writes == ["self._time_shift = t_last"] and tl == ["t_last = float(sim_variables[-1].index[-1])"]
+        ok = ok and ast.unparse(ub[-2]) == "self._initialise_integrator()"
+        y0w = {ast.unparse(n.value) for n in ast.walk(uv) if isinstance(n, ast.Assign) and ast.unparse(n.targets[0]) == "self.y0"}
+        ok = ok and y0w <= {"self.y0 | variables", "sim_variables[-1].iloc[-1, :].to_dict() | variables"}
+    facts["ops_ok"] = bool(ok)
+    return facts
+
+
 def extract_facts() -> dict[str, Any]:
     facts: dict[str, Any] = {
         "step": 0, "max_steps": 0, "cmp": "CmpUnknown", "norm": "NormUnknown", "prev": "PrevUnknown",
@@ -339,17 +469,20 @@ def extract_facts() -> dict[str, Any]:
 
 def gen() -> dict[str, Any]:
     f = extract_facts()
+    hf = extract_hist_facts()
     tol = Fraction(0) if f["default_tol"] is None else Fraction(*float(f["default_tol"]).as_integer_ratio())
     text = (
         "(* REGENERATED from src/mxlpy/integrators/int_scipy.py (Scipy.integrate_to_steady_state, reset),\n"
         "   simulator.py, scan.py, types.py, simulation.py by harness/c15.py; do not edit.\n"
         "   An unrecognised shape yields a *Unknown constructor / false, which breaks C15_facts_pinned. *)\n"
         "From Coq Require Import QArith ZArith NArith.\n"
-        "From Steady Require Import SteadyLoop.\n"
+        "From Steady Require Import SteadyLoop SteadyHist2.\n"
         f"Definition gen_ss_facts : ss_facts :=\n  mkSSFacts {int(f['step'])}%Z {int(f['max_steps'])}%N {f['cmp']} {f['norm']} {f['prev']} {f['rel']} {f['exhaust']} {f['succ']} "
         f"{common.cbool(bool(f['shape_ok']))}.\n"
         f"Definition gen_plumb_facts : plumb_facts :=\n  mkPlumb {common.cbool(bool(f['sim_ok']))} {common.cbool(bool(f['worker_ok']))} {cq(tol)}.\n"
+        f"Definition gen_hist_facts : hist_facts :=\n  mkHistFacts {hf['handle']} {hf['label']} {common.cbool(bool(hf['ops_ok']))}.\n"
     )
+    f = {**f, **{"hist_" + k: v for k, v in hf.items()}}
     common.write_if_changed(common.area_dir(AREA) / "GenSteadyFacts.v", text)
     return {k: (v if not isinstance(v, float) else repr(v)) for k, v in f.items()}
 
@@ -364,7 +497,9 @@ def build_model(net: dict):
 
     m = Model()
     d = net["d"]
-    for i in range(d):
+    # "var_order": the order in which the variables are ADDED to the model (= model.get_variable_names(), the order of
+    # the integrator state); the names stay x<i>, so the order is not the alphabetical one when permuted
+    for i in net.get("var_order") or range(d):
         m.add_variable(f"x{i}", float(net["y0_default"][i]))
     for r, rx in enumerate(net["reactions"]):
         kind = rx[0]
@@ -961,7 +1096,15 @@ def check(run: Run) -> None:
         "SWEEPS: one Simulator, clear_results / update_parameter / simulate_to_steady_state().get_result() for three values of a "
         "rate constant, results read only AFTER the sweep: each must be the steady state of ITS parameter set with balancing "
         "fluxes. RECORDED RUNS: every search above whose binary64 norm decisions are not within 1e-9 of the tolerance is replayed "
-        "through the Gallina loop over IEEE values (finite | inf | NaN) on the solver's own buffers and success flags."
+        "through the Gallina loop over IEEE values (finite | inf | NaN) on the solver's own buffers and success flags. "
+        "EXTENDED HISTORIES (own rng stream): stable networks, in 3 of 4 multi-pool cases with a user-supplied y0 dictionary "
+        "whose keys are written in a PERMUTED order, and 1-5 operations simulate(dyadic end time) / simulate_to_steady_state / "
+        "update_parameter (a rate constant or the influx times 1/4..8) / update_variables / clear_results on ONE Simulator, "
+        "always ending with a search; the last row of get_result (public views, by variable name) must be the steady state of the "
+        "network AS PARAMETERISED AT THE LAST SEARCH with balancing reported fluxes, and every frame (times incl. the time "
+        "shift, column order, values) must equal the Gallina model hist2_named gen_hist_facts on the recorded integrator "
+        "results; non-trivial = at least two operations or a permuted key order; first cases = the demos of seeded changes "
+        "C15-7 / C15-9."
     )
     proofs_ok = run.check_proofs(AREA, PROPS)
     run.assumptions += [
@@ -981,7 +1124,11 @@ def check(run: Run) -> None:
         "oracle constants: integration error per sample <= 320 * (1e-6*max|y_i| + 1e-12) (100 x worst observed)",
         "what each integrator call returns inside a history, and the buffers/success flags of scipy.integrate.ode.integrate, are "
         "inputs of the model (external behaviour) recorded by wrappers in harness/c15_hist.py (trusted glue); the history model has "
-        "no update_variable/_time_shift, no protocols, no raising calls",
+        "no update_variable/_time_shift, no protocols, no raising calls; the EXTENDED history model (SteadyHist2.v) adds "
+        "update_parameter(s)/update_variable(s)/clear_results, the time shift and the column names; that a new integrator "
+        "object restarts at its own time 0 from the overridden state, and what y0 becomes in update_variables, stay external",
+        "fact extractor harness/c15.py::extract_hist_facts (handler shape HkSkipfirst | HkLaterOnly, column labels, structural "
+        "pins of Simulator.__init__, _initialise_integrator, update_*, scale_*, clear_results)",
         "coq/steady/ExpectedFacts.v is a hand-edited switch (expected form of the integ.successful() test), kept consistent with "
         "known_findings.d/C15.json by tools/c15_switch.py",
     ]
@@ -1242,11 +1389,62 @@ def check(run: Run) -> None:
             elif n_viol < 10:
                 n_viol += 1
                 run.violation(what, {"kind": "sweep", "net": net, "tol": tol, "rel": rel, "r_idx": r_idx, "values": values})
+    # ---- (f) extended histories: model changes BETWEEN runs on one Simulator, y0 written in any key order
+    xrng = common.rng_for(run.seed, "c15-close")
+    ext_cases = list(c15_close.fixed_histories())
+    n_ext = len(ext_cases) + (300 if thorough else 48)
+    while len(ext_cases) < n_ext:
+        ext_cases.append(c15_close.gen_case2(xrng, gen_case))
+    ext_defs: list[tuple[str, str]] = []
+    xstats = {"histories": 0, "final_success": 0, "final_failure": 0, "permuted_y0_keys": 0, "parameter_change_between_runs": 0,
+              "variable_override_between_runs": 0, "cleared_between_runs": 0, "variables_added_in_non_alphabetical_order": 0, "last_search_not_later_than_stored": 0,
+              "outside_model": 0}
+    xshapes: dict[str, int] = {}
+    for xi, (net, tol, rel, hist) in enumerate(ext_cases):
+        h = c15_close.run_history2(net, hist, tol, rel)
+        shape = "+".join(op[0] for op in hist)
+        xshapes[shape] = xshapes.get(shape, 0) + 1
+        xstats["histories"] += 1
+        xstats["final_success" if h.get("final") == "Success" else "final_failure"] += 1
+        permuted = bool(net["user_y0"] and c15_close.y0_order(net) != c15_close.var_order(net))
+        xstats["permuted_y0_keys"] += permuted
+        xstats["variables_added_in_non_alphabetical_order"] += c15_close.var_order(net) != list(range(net["d"]))
+        xstats["parameter_change_between_runs"] += any(op[0] == "par" for op in hist[1:])
+        xstats["variable_override_between_runs"] += any(op[0] == "var" for op in hist[1:])
+        xstats["cleared_between_runs"] += any(op[0] == "clear" for op in hist)
+        fr = h.get("frames") or []
+        if len(fr) >= 2 and fr[-1]["rows"] and fr[-2]["rows"] and fr[-1]["rows"][-1][0] <= fr[-2]["rows"][-1][0]:
+            xstats["last_search_not_later_than_stored"] += 1
+        run.count_case(("hist2", net["reactions"], net["y0"], net["user_y0"], tuple(c15_close.y0_order(net)),
+                        tuple(c15_close.var_order(net)), tol, rel, hist),
+                       nontrivial=len(hist) >= 2 or permuted)
+        if xi in (0, 4):
+            run.sample({"extended_history": hist, "net": {k: net[k] for k in ("kind", "reactions", "y0", "user_y0")},
+                        "y0_argument": c15_close.user_y0(net), "tol": tol, "rel_norm": rel, "get_result": h.get("final"),
+                        "last_row_by_name": h.get("last"), "frames": [f["rows"][-1:] for f in fr]})
+        verdict = c15_close.history2_oracle(net, hist, tol, rel, h)
+        if verdict is not None:
+            cls, what = verdict
+            if cls.startswith("finding:") and cls.split(":", 1)[1] in known_ids:
+                finding_hits += 1
+            elif cls.startswith("undecided:"):
+                stats["oracle_undecided_border"] = stats.get("oracle_undecided_border", 0) + 1
+            elif n_viol < 14:
+                n_viol += 1
+                run.violation(what, {"kind": "history2", "net": net, "tol": tol, "rel": rel, "hist": hist})
+        text = c15_close.history2_coq_case(0, net, h)
+        if text is None:
+            xstats["outside_model"] += 1
+        else:
+            ext_defs.append((f"extended history {hist} on kind={net['kind']} reactions={net['reactions']} y0={c15_close.user_y0(net) or net['y0']} "
+                             f"tol={tol} rel_norm={rel}: get_result={h.get('final')}", text))
+    stats["extended_histories_compared"] = len(ext_defs)
     stats["recorded_runs_compared"] = len(rec_defs)
     stats["histories_compared"] = len(hist_defs)
 
     run.coverage["input_distribution"] = {
         "history_stage": {**hstats, "shapes": hshapes}, "singular_stage": sstats, "nan_norm_stage": nstats, "sweep_stage": wstats,
+        "extended_history_stage": {**xstats, "shapes": xshapes},
         "network_kinds": kinds, "impl_outcomes": outcomes, "tolerances": tol_hist, **stats,
         "known_finding_family_hits": finding_hits,
     }
@@ -1297,6 +1495,7 @@ def check(run: Run) -> None:
 
     pack("c15_hist", hist_defs, "hcase", c15_hist.history_corr_file)
     pack("c15_rec", rec_defs, "rcase", c15_hist.recorded_corr_file)
+    pack("c15_ext", ext_defs, "h2case", c15_close.history2_corr_file)
     res = common.coq_eval_many(AREA, files, timeout_s=900)
     mism = 0
     for name in sorted(files):
@@ -1309,8 +1508,10 @@ def check(run: Run) -> None:
             for j in lists[-1]:
                 mism += 1
                 if len(run.broken_correspondence) < 5:
-                    what = "history model (hist_result) and Simulator.get_result disagree" if name.startswith("c15_hist") else \
-                        "loop model (ss_run_s) on the solver's recorded buffers/success flags and the implementation disagree"
+                    what = ("history model (hist_result) and Simulator.get_result disagree" if name.startswith("c15_hist") else
+                            "extended history model (hist2_named gen_hist_facts: rows, time shift, column names) and Simulator.get_result "
+                            "disagree" if name.startswith("c15_ext") else
+                            "loop model (ss_run_s) on the solver's recorded buffers/success flags and the implementation disagree")
                     run.broken_correspondence.append(f"{what}: {extra_desc[name][j]}")
             continue
         for j in lists[-1]:
@@ -1322,7 +1523,7 @@ def check(run: Run) -> None:
                     f"loop model and implementation disagree on case #{ci}: kind={net['kind']} reactions={net['reactions']} y0={net['y0']} "
                     f"user_y0={net['user_y0']} tol={tol} rel_norm={rel} impl={ {k: out[k] for k in out if k != 'fluxes'} }"
                 )
-    run.coverage["traces_validated_against_impl"] = stats["exact_compared"] + len(hist_defs) + len(rec_defs) - mism
+    run.coverage["traces_validated_against_impl"] = stats["exact_compared"] + len(hist_defs) + len(rec_defs) + len(ext_defs) - mism
     run.coverage["correspondence_mismatches"] = mism
 
     # scan.steady_state rows (NaN for failures) through the public API
@@ -1396,6 +1597,20 @@ def replay(rep: dict) -> int:
         print("integrator results per call:", [{k: (x[k] if k not in ("time", "values") else x[k][-1]) for k in x} for x in h["ops"]])
         print("get_result:", h.get("final"), "last row:", (h.get("rows") or [None])[-1], "raised:", h["raised"])
         print("closed-form decision step of the search:", tr["decision"], "borderline:", tr["borderline"])
+        print("oracle:", verdict or "property holds on this history")
+        return 1 if (verdict is not None and verdict[0] == "violation") else 0
+    if r.get("kind") == "history2":
+        common.quiet_impl_logging()
+        net = r["net"]
+        net["reactions"] = [tuple(x) for x in net["reactions"]]
+        tol, rel = float(r["tol"]), bool(r["rel"])
+        hist = [tuple(({int(k): v for k, v in x.items()} if isinstance(x, dict) else x) for x in op) for op in r["hist"]]
+        h = c15_close.run_history2(net, hist, tol, rel)
+        verdict = c15_close.history2_oracle(net, hist, tol, rel, h)
+        print("history:", hist, " y0 argument:", c15_close.user_y0(net))
+        print("integrator results per call:", [{k: (x[k] if k not in ("time", "values") else x[k][-1]) for k in x} for x in h["ops"]])
+        print("get_result:", h.get("final"), "last row by name:", h.get("last"), "raised:", h["raised"])
+        print("last rows of the stored frames:", [(f["cols"], f["rows"][-1:]) for f in (h.get("frames") or [])])
         print("oracle:", verdict or "property holds on this history")
         return 1 if (verdict is not None and verdict[0] == "violation") else 0
     if r.get("kind") == "singular":
